@@ -82,13 +82,13 @@ def gap_scenario():
     return None
 
 
-def random_scenarios(rng, fast):
+def random_scenarios(rng, fast, gapless=False):
     for _ in range(12):
         n = 30
         rows = []
         prev = 100.0
         for i in range(n):
-            o = prev * (1 + rng.choice([0, 0, 0, rng.uniform(-0.01, 0.01)]))
+            o = prev if gapless else prev * (1 + rng.choice([0, 0, 0, rng.uniform(-0.01, 0.01)]))
             c = o * (1 + rng.uniform(-0.006, 0.006))
             h = max(o, c) * (1 + rng.random() * 0.002)
             l = min(o, c) * (1 - rng.random() * 0.002)
@@ -102,14 +102,97 @@ def random_scenarios(rng, fast):
     return None
 
 
+def _val(v):
+    if isinstance(v, dict):
+        return float(v.get('float', 0))
+    return float(v) if isinstance(v, (int, float)) else 0.0
+
+
+def model_scenario(pl, fast):
+    """the verifier's counterexample as a backtest: the model's minute(s) and resting order prices, mapped by
+    x -> 100 * (1 + x / 10) (order preserving), after flat minutes at the first open so that no gap precedes them"""
+    m = {k.split('#')[0]: v for k, v in (pl.get('model') or {}).items()}
+    f = lambda x: round(100.0 * (1 + _val(x) / 10), 6)
+    prices = [f(m[k]) for k in sorted(m) if k.startswith('r') and k[1:].isdigit()]
+    if not prices:
+        return None
+    mins = []
+    if 'c1' in m:
+        mins.append([f(m.get(f'c{j}', 0)) for j in (1, 2, 3, 4)])
+    j = 0
+    while f'm{j}_1' in m:
+        mins.append([f(m.get(f'm{j}_{k}', 0)) for k in (1, 2, 3, 4)])
+        j += 1
+    if not mins:
+        return None
+    o0 = mins[0][0]
+    lead = 5 if fast else 1
+    px = [(o0, o0, o0, o0)] * lead + [tuple(x) for x in mins]
+    last = mins[-1][1]
+    px += [(last, last, last, last)] * (10 - len(px) % 5)
+    rows = [[TS0 + i * 60000, o, c, h, l, 10] for i, (o, c, h, l) in enumerate(px)]
+    orders = {0: [('buy', 1, p) for p in prices if p != o0]}
+    if not orders[0]:
+        return None
+    rec = run(rows, orders, fast, tf='5m' if fast else '1m')
+    return check_fills(rows, rec, f'{"fast" if fast else "normal"} simulator on the counterexample minute(s) {mins} with buy orders at {prices}')
+
+
+def hook_market_scenario():
+    """MARKET entry, on_open_position reacts with a MARKET exit: both must fill at their submission time and price"""
+    from jesse import research
+    from jesse.strategies import Strategy
+    from jesse.store import store
+    out = []
+
+    class S(Strategy):
+        def should_long(self): return self.index == 0
+        def should_short(self): return False
+        def should_cancel_entry(self): return False
+        def go_long(self): self.buy = 1, self.price
+        def go_short(self): pass
+        def on_open_position(self, order): self.liquidate()
+    rows = [[TS0 + i * 60000, 100 + 10 * i, 100 + 10 * i, 100 + 10 * i, 100 + 10 * i, 10] for i in range(6)]
+    cfg = {'starting_balance': 1000000, 'fee': 0, 'type': 'futures', 'futures_leverage': 10, 'futures_leverage_mode': 'cross',
+           'exchange': 'Sandbox', 'warm_up_candles': 0}
+    from jesse.store.state_orders import OrdersState
+    seen = []
+    orig = OrdersState.add_order
+
+    def add_order(self, order):
+        seen.append(order)
+        return orig(self, order)
+    OrdersState.add_order = add_order
+    try:
+        research.backtest(cfg, [{'exchange': 'Sandbox', 'strategy': S, 'symbol': 'BTC-USDT', 'timeframe': '1m'}], [],
+                          {'Sandbox-BTC-USDT': {'exchange': 'Sandbox', 'symbol': 'BTC-USDT', 'candles': np.array(rows, dtype=float)}})
+    finally:
+        OrdersState.add_order = orig
+    out = [(o.type, o.side, o.status, o.created_at, o.executed_at) for o in seen]
+    for t, side, status, created, executed in out:
+        if t == 'MARKET' and (status != 'EXECUTED' or executed != created):
+            return (f'MARKET {side} order submitted from on_open_position at {created} is {status} with executed_at={executed}: '
+                    f'not filled at the moment it was submitted')
+    if len(out) < 2:
+        return f'expected the entry and the reaction order, found {out}'
+    return None
+
+
 def replay(pl):
     ob = pl['obligation']
     rng = random.Random(pl.get('seed', 0))
+    fast = ob.startswith('chunk')
     try:
-        if ob.startswith('chunk'):
-            d = gap_scenario() or random_scenarios(rng, True)
-        else:
-            d = random_scenarios(rng, False) or gap_scenario()
+        d = None
+        if ob.startswith('flush.'):
+            d = hook_market_scenario()
+            return {'confirmed': bool(d), 'detail': d or 'MARKET orders submitted from a fill hook fill at submission time'}
+        for m in [pl.get('model')] + list(pl.get('other_models') or []):
+            d = model_scenario(dict(pl, model=m), fast)
+            if d:
+                break
+        # the recorded fast-mode finding (order priced only in a close->open gap) is replayed by replay_finding only
+        d = d or random_scenarios(rng, fast, gapless=fast)
     except Exception as ex:
         import traceback
         d = f'backtest raised {type(ex).__name__}: {ex} {traceback.format_exc()[-400:]}'
